@@ -66,6 +66,8 @@ class SimStream(io.StringIO):
         self.fail_plan = {}
         self.n_writes = 0
         self.fired = []
+        self.buffer = io.BytesIO()      # what a real text stream has underneath
+        self.ascii_only = False         # a terminal with a narrow encoding (LANG=C)
 
     def arm(self, fail_plan):
         self.armed = True
@@ -78,6 +80,8 @@ class SimStream(io.StringIO):
 
     def write(self, msg):
         self.n_writes += 1
+        if self.ascii_only and isinstance(msg, str) and not msg.isascii():
+            raise UnicodeEncodeError('ascii', msg, 0, 1, 'sim: ordinal not in range(128)')
         if self.armed and S_in_part():
             k = self.ordinal
             self.ordinal += 1
